@@ -38,6 +38,10 @@ P_ORD = [["p", 0]]
 P_LABEL = [["lab", ".Lx"], ["p", 0], ["jcc", ".Lx"]]
 P_GLABEL = [["p", 0], ["lab", "G_new"], ["p", 0]]
 P_DATA = {"bytes": [0]}
+# assembled data patches that define a label: behind their last byte / between their bytes / in front of them
+P_DLAB_END = [["d", 0xA1], ["lab", ".Ld"]]
+P_DLAB_MID = [["d", 0xA2], ["lab", ".Ld"], ["d", 0xA3]]
+P_DLAB_START = [["lab", ".Ld"], ["d", 0xA4]]
 
 KINDS = ("cccc", "cdcc", "ccdc", "cccd", "dccc", "czdc", "czcc")  # z: a code block that is already zero-sized (leftover of an earlier rewrite)
 FUNCS = (("f", "f", "f", "f"), ("f", "g", "g", "h"), (None, "f", "f", None))
@@ -110,7 +114,7 @@ def atoms_for(spec):
         return z_atoms(allb, zi)
     for s, b in [(s, b) for s in spec["sections"] for b in s["blocks"]]:
         n = len(b["i"])
-        pl = [P_ORD, P_LABEL] if b["k"] == "c" else [P_DATA]
+        pl = [P_ORD, P_LABEL] if b["k"] == "c" else [P_DATA, P_DLAB_END, P_DLAB_MID]
         for k in range(n + 1):
             for p in pl:
                 out.append({"op": "ins", "b": b["n"], "k": k, "p": p})
@@ -150,6 +154,18 @@ PROBLEMS = ("symbol-referent-not-in-module", "symbol-proxy-not-in-module")
 
 def check(spec, mods):
     outcome, diffs, w, E, O = run_scenario(spec, mods, ["labels"], problem_kinds=PROBLEMS)
+    # request pattern of F49: a label closes its patch (nothing of the patch follows it) and a modification registered
+    # later targets the very same offset.  (Temporary labels of two patches share their base name and are told apart by
+    # position only, so the discrepancy may be attributed to either of them.)
+    f49 = set()
+    for mid, m in enumerate(mods):
+        if m["op"] in ("ins", "rep") and isinstance(m.get("p"), list) and m["p"] and m["p"][-1][0] == "lab":
+            at = m["k"] + (m.get("n", 0) if m["op"] == "rep" else 0)
+            if any(j > mid and o.get("b") == m["b"] and o.get("k") == at for j, o in enumerate(mods)):
+                f49.add(m["p"][-1][1])
+    for d in diffs:
+        if d["kind"] == "label-position" and "@" in str(d.get("label", "")) and d["label"].split("@")[0] in f49:
+            d["r_pattern"] = "later-edit-at-the-offset-of-a-patch-trailing-label"
     return outcome, diffs, E
 
 
